@@ -23,6 +23,8 @@ RULE = ('Each case has three parts. (a) TWIN WORLDS: a generated history (create
         'choice of construction sources (init_methods entry, prefixed method, neither), custom prefixes, a '
         'subclass level overriding component_types / init_prefix / methods / init_methods; iterated twice; oracle '
         '= specification function. (c) OnUpdateProcessor with 0-5 on_update listeners and generated dt objects. '
+        ''
+        'In ~6% of the cases OnUpdateProcessor runs 70-1100 frames on a disabled world, is enabled, and runs as many frames enabled. '
         'Non-trivial = (a) >= 3 entities and the queried type matches >= 2 or 0 components of the controller\'s '
         'entity, or (b) >= 2 different construction sources together with a subclass override. Distinct = sha1 '
         'of canonical JSON.')
